@@ -253,7 +253,8 @@ def batch(cid, tier):
     budget = float(os.environ.get(
         "VERIF_BUDGET_S", getattr(check, "THOROUGH_BUDGET_S", 600)
         if tier == "thorough" else 0))
-    selftest_n = 20 if tier == "quick" else 200
+    selftest_n = getattr(check, "SELFTEST_N", {}).get(
+        tier, 20 if tier == "quick" else 200)
     chunk = getattr(check, "CHUNK", 200)
 
     print("check %s tier=%s VERIF_SEED=%d jobs=%d repo=%s" %
@@ -495,6 +496,9 @@ def write_evidence(check, cid, tier, seed, agg, wall, selftest, reported,
         "probes_hit": dict(sorted(agg["probes"].items())),
         "gray_zone_notes": dict(sorted(agg["notes"].items())),
         "determinism_selftest": selftest,
+        "history_digest_of_sample": hashlib.sha256(canon(sorted(
+            [c, i, d] for (c, i), d in agg["digests"].items())).encode()
+        ).hexdigest(),
         "components": getattr(check, "COMPONENTS", {}),
         "known_findings_seen": {s: c for s, (_, c, _) in known_hit.items()},
         "new_violation_signatures": [s for s, _ in reported],
